@@ -223,7 +223,7 @@ pub fn plan(prop: &str) -> Option<Plan> {
                 opts: ExecOpts { c09: true, hook: true, max_live: 3000, ..Default::default() },
                 cases_quick: 32_000,
                 cases_thorough: 600_000,
-                rule: "random histories with allocation bursts of 0-300 objects between natural (never artificially reduced) debt-driven calls under all pacing presets; non-trivial = a tracked cycle that needed >= 3 calls, or a sleep allowance crossed from below",
+                rule: "random histories with allocation bursts of 0-300 objects between natural (never artificially reduced) debt-driven calls under all pacing presets; oracles: zero debt / stopping phase on return, the completion bound rho*H/(1-rho), the sleep allowance, per-cycle credit counters (<= objects that existed, sum <= rho x that) and allocation_debt() == the documented formula over the counter hook's values; non-trivial = a tracked cycle that needed >= 3 calls, or a sleep allowance crossed from below",
                 nontrivial: |c| c.c09_multi_call_cycles > 0 || c.c09_sleep_crossed > 0,
                 crash_is_violation: false,
                 assumptions: &COMMON_ASSUMPTIONS,
